@@ -398,6 +398,9 @@ func genReq(t *rapid.T, lb string) Req {
 			}
 		}
 	}
+	if r.Kind == "written" && s.Status != 0 && rapid.IntRange(0, 5).Draw(t, lb+"early") == 0 {
+		s.Early = 103 // Early Hints first; the logged status is that of the final response
+	}
 	if r.Kind == "written" {
 		s.Copy = rapid.IntRange(0, 2).Draw(t, lb+"copy") == 0 // the body is sent with io.Copy, as a file would be
 	}
